@@ -87,4 +87,12 @@ Theorem C09_fail_test_is_the_source : forall m s,
 Proof. exact fail_ignored_bridge. Qed.
 Print Assumptions C09_fail_test_is_the_source.
 
+(* what is scheduled when a state is entered - first one timer per delayed transition in the order of the `after` map, then the
+   invoked services in order, a service that is not registered raising ImplementationMissingError before it is started - is read
+   off _schedule_state_tasks (shared by both engines) on every run and is the model's sched_run *)
+Theorem C09_schedule_is_the_source : forall eng m x s,
+  run_schedule_skeleton GenGeom.schedule_skeleton eng m x s = sched_run eng m x s.
+Proof. exact schedule_skeleton_bridge. Qed.
+Print Assumptions C09_schedule_is_the_source.
+
 
